@@ -128,12 +128,16 @@ def uniqueLoop : (cnt i j : Nat) → List Int → Nat × List Int
     let j' := if u.getD j 0 ≠ u.getD i 0 then j + 1 else j
     uniqueLoop c (i + 1) j' (if j' ≠ i then u.set j' (u.getD i 0) else u)
 
-/-- `(nunique, unique[0..n))`.  For `n = 0` the C returns `nunique = 1` (and `unique[0]` is never
-    written): modelled as is. -/
+/-- `(nunique, unique[0..n))`.  For `n = 0` the C returns `nunique = 0` at once (the early return added by the
+    repair `fix: ref_sort_unique_int reports no unique entry for an empty list`; before it the count was 1 and
+    `ref_sort_same(0, ..)` read `unique[0]` of a zero-length allocation). -/
 def uniqueInt (original : List Int) : Nat × List Int :=
-  let n := original.length
-  let (j, u) := uniqueLoop (n - 1) 1 0 (sortInsertion original)
-  (j + 1, u)
+  match original with
+  | [] => (0, [])
+  | _ :: _ =>
+    let n := original.length
+    let (j, u) := uniqueLoop (n - 1) 1 0 (sortInsertion original)
+    (j + 1, u)
 
 /-- the meaningful prefix of the `unique` array -/
 def uniqueList (original : List Int) : List Int :=
